@@ -7,6 +7,7 @@ package c02
 
 import (
 	"fmt"
+	"os"
 	"path/filepath"
 	"runtime"
 	"sync"
@@ -32,7 +33,7 @@ func TestC02(t *testing.T) {
 	dir := evid.TempDir(t)
 	nHist := r.N(3000, 60000)
 	cfg := ops.GenCfg{
-		Names:  []string{"a", "a", "a", "b", "b", "c/d", "", "_internal/x"},
+		Names:  []string{"a", "a", "a", "b", "b", "c/d", "", "_internal/x", "c/../a", "b/", "c//d", "./a"},
 		Values: [][]byte{[]byte(""), []byte("one"), []byte("two"), []byte("one"), {0, 255, '\n'}},
 		Weights: map[ops.Kind]int{ops.List: 1, ops.Info: 2, ops.Get: 2, ops.GetVer: 3, ops.GetCond: 1,
 			ops.Put: 10, ops.Act: 5, ops.DelVer: 7, ops.Delete: 1},
@@ -49,7 +50,8 @@ func TestC02(t *testing.T) {
 					continue
 				}
 				rng := r.Rand(uint64(h))
-				path := filepath.Join(dir, fmt.Sprintf("h%d.db", h))
+				os.MkdirAll(filepath.Join(dir, fmt.Sprintf("h%d", h)), 0o700)
+				path := filepath.Join(dir, fmt.Sprintf("h%d", h), "db")
 				d, err := realdb.Open(path, realdb.DummyKey("c02"))
 				if err != nil {
 					r.Violation("open-fails", h, "creating a database failed: "+err.Error(), nil)
@@ -65,6 +67,45 @@ func TestC02(t *testing.T) {
 				for i := 0; i < n && !bad; i++ {
 					op := ops.Gen(rng, m, cfg)
 					pre := m.Clone()
+					// now and then the server is restarted between two calls: the specification is about
+					// the service, not about one process
+					if rng.IntN(15) == 0 {
+						d2, err := realdb.Open(path, realdb.DummyKey("c02"))
+						if err != nil {
+							r.Violation("reopen-fails", h, fmt.Sprintf("history %d: reopening the database failed: %v", h, err), map[string]any{"history": trace})
+							break
+						}
+						d = d2
+						trace = append(trace, step{"(restart)", "", ""})
+						r.Count("restarts_inside_histories", 1)
+					}
+					// and now and then a call fails because the file system does: like every failed call it must change nothing
+					if op.Kind.Mutating() && rng.IntN(12) == 0 {
+						var got ops.Result
+						realdb.BreakDir(path, func() { got = ops.ApplyReal(d, su, op) })
+						want := ops.ApplyModel(m.Clone(), nil, true, op) // what it would have done
+						changes := false
+						{
+							probe := m.Clone()
+							ops.ApplyModel(probe, nil, true, op)
+							changes = probe.CanonFull() != m.CanonFull()
+						}
+						trace = append(trace, step{op.String() + " (file system fails)", got.String(), want.String()})
+						r.Eval(1)
+						if changes {
+							r.Count("calls_failed_by_io_error", 1)
+							if got.Class == refmodel.OK {
+								r.Violation("io-failure-reported-success", h, fmt.Sprintf("history %d step %d (%s): the save could not be written but the call reported success", h, i, op), map[string]any{"history": trace})
+								break
+							}
+						}
+						real, err := realdb.Dump(d)
+						if err != nil || real.Canon() != m.Canon() {
+							r.Violation("failed-call-changed-state", h, fmt.Sprintf("history %d step %d (%s): the call failed (%s) but the state is now %v (err %v), it was %s", h, i, op, got.Err, real.Canon(), err, m.Canon()), map[string]any{"history": trace})
+							break
+						}
+						continue
+					}
 					want := ops.ApplyModel(m, nil, true, op)
 					got := ops.ApplyReal(d, su, op)
 					trace = append(trace, step{op.String(), got.String(), want.String()})
@@ -172,7 +213,7 @@ func TestC02(t *testing.T) {
 		}(w)
 	}
 	wg.Wait()
-	r.Require("histories", "failed_calls", "shape_delete_newest_version", "shape_put_after_newest_deleted", "shape_put_empty_after_newest_deleted",
+	r.Require("histories", "restarts_inside_histories", "calls_failed_by_io_error", "failed_calls", "shape_delete_newest_version", "shape_put_after_newest_deleted", "shape_put_empty_after_newest_deleted",
 		"shape_put_duplicate_of_newest", "shape_put_duplicate_of_older", "shape_activate_backwards", "shape_recreate_after_delete")
 	r.Rule("seeded random histories of 30-60 operations (all 9 operations, weighted towards put/activate/delete-version) over 3 ordinary names plus the empty and a reserved name, values from a 4-element pool incl. the empty value; oracle after every step. A case is distinct by (operation, precondition class of its name/version argument, model outcome class); named shapes are counted in 'observed'")
 }
